@@ -57,9 +57,10 @@ func (t *verifC39Tracker) GetVirtualEpoch(epoch uint64) uint64 { return 0 }
 // hash of its own data, is signed, and the signer is already registered for that epoch or the chain pairs it with
 // this provider.  A rejected request registers nothing and leaves no session locked.
 func VerifC39VerifySession() {
-	wrongProvider := verif_nondet_bool("request.namesAnotherProvider")
-	wrongSpec := verif_nondet_bool("request.wrongSpecId")
-	wrongLavaChain := verif_nondet_bool("request.wrongLavaChainId")
+	providerCase := verif_nondet_range("request.provider", 0, 2)     // 0 this provider, 1 another one, 2 empty
+	specCase := verif_nondet_range("request.specId", 0, 2)           // 0 the endpoint's spec, 1 another one, 2 empty
+	lavaChainCase := verif_nondet_range("request.lavaChainId", 0, 2) // 0 this network, 1 another one, 2 empty
+	wrongProvider, wrongSpec, wrongLavaChain := providerCase != 0, specCase != 0, lavaChainCase != 0
 	oldEpoch := verif_nondet_bool("request.epochNoLongerAccepted")
 	hashCase := verif_nondet_range("request.contentHash", 0, 2) // 0 hash of the carried data, 1 data changed after hashing, 2 hash of other data
 	badSig := verif_nondet_bool("request.unverifiableSignature")
@@ -94,15 +95,9 @@ func VerifC39VerifySession() {
 
 	data := &pairingtypes.RelayPrivateData{ConnectionType: "GET", ApiUrl: "u", Data: []byte{verif_nondet_byte("request.data")}, RequestBlock: 5, ApiInterface: "rest", Salt: []byte{1}}
 	sess := &pairingtypes.RelaySession{SpecId: "LAV1", SessionId: 9, CuSum: 10, Provider: self.String(), RelayNum: relayNum, Epoch: 80, LavaChainId: "lava"}
-	if wrongProvider {
-		sess.Provider = other.String()
-	}
-	if wrongSpec {
-		sess.SpecId = "ETH1"
-	}
-	if wrongLavaChain {
-		sess.LavaChainId = "other"
-	}
+	sess.Provider = []string{self.String(), other.String(), ""}[providerCase]
+	sess.SpecId = []string{"LAV1", "ETH1", ""}[specCase]
+	sess.LavaChainId = []string{"lava", "other", ""}[lavaChainCase]
 	if oldEpoch {
 		sess.Epoch = 40
 	}
